@@ -461,6 +461,38 @@ pub fn run(ctx: &Ctx) -> Report {
       }
     }
   }
+  // ---- a reader that stalls (the pipe fills, the command is suspended and resumed while blocked, a write returns short):
+  // `--output -` still delivers exactly the bytes of the file, and the other payloads arrive whole
+  if ctx.replay.is_none() {
+    let sb = Sandbox::new(&ctx.work, "c18s");
+    sb.write("blob", &(0..400_000u32).map(|i| (i * 31 + i / 977) as u8).collect::<Vec<u8>>());
+    let common = ["torrent", "create", "--input", "blob", "--piece-length", "1KiB", "--allow", "small-piece-length", "--no-creation-date"];
+    let mut to_file: Vec<&str> = common.to_vec();
+    to_file.extend(["--output", "blob.torrent"]);
+    let f = Cmd::new(&ctx.imdl, &to_file).cwd(&sb.root).literal().run();
+    let want = std::fs::read(sb.path("blob.torrent")).unwrap_or_default();
+    let mut to_stdout: Vec<&str> = common.to_vec();
+    to_stdout.extend(["--output", "-"]);
+    let runs: Vec<(&str, Vec<&str>, Vec<u8>)> = vec![
+      ("create-stdout", to_stdout, want.clone()),
+      ("show-json", vec!["torrent", "show", "--json", "--input", "blob.torrent"], Cmd::new(&ctx.imdl, &["torrent", "show", "--json", "--input", "blob.torrent"]).cwd(&sb.root).literal().run().stdout),
+      ("dump", vec!["--unstable", "torrent", "dump", "--input", "blob.torrent"], Cmd::new(&ctx.imdl, &["--unstable", "torrent", "dump", "--input", "blob.torrent"]).cwd(&sb.root).literal().run().stdout),
+    ];
+    for (name, args, want) in runs {
+      let Some((o, stalled)) = crate::run::stalled_run(&sb.root, &ctx.imdl, &args, &sb.path("stderr.txt"), None) else {
+        report.hit("skipped:no-stall-helper");
+        break;
+      };
+      let case = json!({"stdout_reader_stalls_command_suspended_and_resumed": true, "scenario": name});
+      report.case(Some(fnv_str(&case.to_string())));
+      report.hit(if stalled { "stdout:stalled-reader" } else { "stdout:stalled-reader-but-it-fitted" });
+      if !f.ok() || want.is_empty() {
+        report.notes.push(format!("stalled-reader scenario {name}: no reference output (create exit {:?})", f.code));
+      } else if o.code != Some(0) || o.stdout != want {
+        report.fail("property", "stream-discipline", case, format!("a reader that stalls receives {} bytes (exit {:?}); the payload is {} bytes", o.stdout.len(), o.code, want.len()));
+      }
+    }
+  }
   report
 }
 
